@@ -318,7 +318,21 @@ def kahn_unit(ctx):
     class _nx:
         HasACycle = Cycle
 
-    env = {"__vc": vc, "len": vc.len, "any": _any, "nx": _nx}
+    import collections as _real_collections
+
+    class _collections:
+        """the work list may equally be a deque used as a stack (append / pop / truthiness): same symbolic bag"""
+
+        @staticmethod
+        def deque(*a, **k):
+            if a or k:
+                return _real_collections.deque(*a, **k)
+            return vc.new_list()
+
+        def __getattr__(self, name):
+            return getattr(_real_collections, name)
+
+    env = {"__vc": vc, "len": vc.len, "any": _any, "nx": _nx, "collections": _collections(), "deque": _collections.deque}
     ts = get(NU, "topological_sort", cut_loops="auto", sym_containers=True).compile_into(env)
 
     def counting_ts(graph):
